@@ -17,6 +17,7 @@ mod props;
 mod report;
 mod rng;
 mod rulecheck;
+mod srclit;
 
 use report::Report;
 
